@@ -90,6 +90,17 @@ func c20scenario(k int, explore bool) string {
 		opt.Int("level", 0, opt.Alias("lev"))
 		opt.Bool("version", false)
 		args = []string{"--le=x"}
+	case 12: // missing required options whose names differ only in letter case
+		opt.String("port", "", opt.Required("port is needed"), opt.Alias("p"))
+		opt.String("Port", "", opt.Required("Port is needed"), opt.Alias("P"))
+		opt.Bool("gamma", false)
+	case 13: // the same on a command, plus names that differ in a trailing character
+		cmd := opt.NewCommand("cmd", "")
+		cmd.String("x", "", cmd.Required())
+		cmd.String("X", "", cmd.Required())
+		cmd.String("x-", "", cmd.Required())
+		cmd.SetCommandFn(func(c context.Context, o *GetOpt, a []string) error { return nil })
+		args = []string{"cmd"}
 	}
 	if explore {
 		vMapOrder("explore")
@@ -109,7 +120,7 @@ func c20scenario(k int, explore bool) string {
 }
 
 func VerifC20_MapOrder() {
-	k := vInt("scenario", 0, 11)
+	k := vInt("scenario", 0, 13)
 	vPhase("run")
 	first := c20scenario(k, false)
 	vObserve("first", first)
